@@ -135,6 +135,8 @@ def main(tier):
     jobs += [(job_drift_field, (n, nb, q, p)) for n, nb in ns for q, p in grids]
     jobs += [(job_first_moment, (n, it, ax, r, 1, 3)) for n in ((10, 9) if tier == 'quick' else (10, 9, 12, 13)) for it in (2, 3, 4) for ax in (0, 1) for r in ((2, n - 3) if tier == 'quick' else range(n))]
     jobs += [(job_rotation_algebra, ())]
+    import c08
+    jobs += [(c08.job_fixed_map, (w, 6, 3, 3, 3, 3)) for w in ('drift', 'rflin', 'rfsin')]      # every bunch of a train rotates like a single bunch (kick and drift reach bunches >= 1)
     import mainparams
     jobs += [(mainparams.job_map_parameters, ('C03',))]      # O5: what main hands to the maps - angle * steps == 2*pi, slip factors
     chk.bounds = {'fields': 'constructors run from IR with symbolic angle in (0,1/2) / voltages / f_RF / slip factors / E0; grids %s with axis ranges %s (zero bin on, between and off-centre cells)' % (ns, grids),
@@ -144,7 +146,9 @@ def main(tier):
                        'updateSM stubbed during the constructor runs (the table is a function of the displacement field: C01/C02)', 'equal cell sizes in q and p (as main constructs the grid); angle = 2*pi/steps and the slip factors main builds are decided from the set-up slice of main extended to the map constructions (steps: the value main divides 2*pi by; the dynamic linear route is executed, the static one receives the same operand)',
                        'small-amplitude equivalence of the sinusoidal bucket, interpolation error for 1-point interpolation and the float product over a whole period are outside the claim']
     chk.stubs = ['updateSM no-op (constructor runs)', 'libm as uninterpreted functions', 'operator new/delete']
-    chk.replayer = replayer(bld)
+    import c08 as _c08
+    _r3 = replayer(bld); _r8 = _c08.replayer(bld)
+    chk.replayer = lambda path, c: (_r8 if ('bunch' in c and 'data' in c and c.get('replay') in _c08.WHAT2RUN) else _r3)(path, c)
     chk.add(run_jobs(jobs, budget=600))
     chk.finish()
 
